@@ -143,6 +143,36 @@ def _explicit_trace(trace, v):
     return trace
 
 
+XINTERP_SEEDS = ("0", "4242")
+
+
+def xinterp_diff(jobs, hashseeds=XINTERP_SEEDS):
+    """Execute the jobs in two fresh interpreters that differ only in PYTHONHASHSEED and compare
+    the per-step (outcome, exception, value digest) signatures.  Returns ([{job, step, detail}], err)."""
+    a, err = engine.xrun_jobs(jobs, hashseeds[0])
+    if err:
+        return [], "cross-interpreter run failed: " + err
+    b, err = engine.xrun_jobs(jobs, hashseeds[1])
+    if err:
+        return [], "cross-interpreter run failed: " + err
+    out = []
+    for j in jobs:
+        k = engine.job_key(j)
+        sa, sb = a.get(k), b.get(k)
+        if isinstance(sa, str) or isinstance(sb, str) or sa is None or sb is None:
+            return [], f"cross-interpreter run: harness error in job {k}: {sa if isinstance(sa, str) else sb}"
+        for i, (x, y) in enumerate(zip(sa, sb)):
+            if x != y:
+                st = j["trace"]["steps"][i] if i < len(j["trace"]["steps"]) else {}
+                out.append({"job": j, "step": i,
+                            "detail": f"step {i} ({st.get('fn') or st.get('meth') or st.get('k')}) gives {x[0]}/{x[1]} with value "
+                                      f"digest {str(x[2])[:12]} under PYTHONHASHSEED={hashseeds[0]} and {y[0]}/{y[1]} / "
+                                      f"{str(y[2])[:12]} under PYTHONHASHSEED={hashseeds[1]}: the result depends on the "
+                                      f"interpreter's hash randomisation, not only on configuration and arguments"})
+                break
+    return out, None
+
+
 def run_check(pid, tier, seed, budget=None, time_cap=None, repo_root=None, write_evidence=True,
               nworkers=None, verbose=True):
     t0 = time.time()
@@ -209,6 +239,7 @@ def run_check(pid, tier, seed, budget=None, time_cap=None, repo_root=None, write
                     unknown.setdefault(tuple(v["cls"]), []).append((res, v))
         reported = []
         shrink_log = []
+        xi = {"jobs": 0, "differing": 0}
         for cls, items in sorted(unknown.items()):
             shrink_log.append(f"unlisted violation class {list(cls)}: {len(items)} occurrence(s), "
                               f"e.g. seed {items[0][0]['seed']}: {items[0][1]['detail'][:160]}")
@@ -231,12 +262,64 @@ def run_check(pid, tier, seed, budget=None, time_cap=None, repo_root=None, write
             reported.append({"cls": list(cls), "seed": res["seed"], "replay": path,
                              "detail": mv["detail"], "count": len(items),
                              "steps": len(mt["steps"])})
+        # ---- interpreter identity (properties that ask for it): a sample of the batch is executed
+        # again in two fresh interpreters that differ only in PYTHONHASHSEED
+        if hasattr(pm, "interpreter_sample") and not os.environ.get("QSIM_NO_XINTERP"):
+            xjobs = pm.interpreter_sample(jobs, tier)
+            xi["jobs"] = len(xjobs)
+            diffs, err = xinterp_diff(xjobs)
+            if err:
+                harness_errors.append({"seed": None, "harness_error": err})
+            xi["differing"] = len(diffs)
+            seen_cls = set()
+            for d_ in diffs:
+                tr = d_["job"]["trace"]
+                v = {"oracle": "interpreter_identity", "step": d_["step"], "detail": d_["detail"], "prop": pid}
+                tgt = pm.violation_target(tr, v) if hasattr(pm, "violation_target") else ""
+                cls = [pid, "interpreter_identity", (tr["steps"][d_["step"]] or {}).get("k"), "none", tgt]
+                v["cls"] = cls
+                if engine.match_known(known, pm.finding_tags(tr, v)) is not None or tuple(cls) in seen_cls:
+                    continue
+                seen_cls.add(tuple(cls))
+                shrink_log.append(f"unlisted violation class {cls}: e.g. seed {d_['job'].get('seed')}: {d_['detail'][:200]}")
+                if len(seen_cls) > 3:
+                    continue
+                # minimise: drop steps one at a time while the two interpreters still disagree
+                cur = json.loads(json.dumps(tr))
+                idx = len(cur["steps"]) - 1
+                while idx >= 0 and len(cur["steps"]) > 1:
+                    cand = _drop_step(cur, idx)
+                    if cand is not None:
+                        dd, e2 = xinterp_diff([{"seed": cur.get("seed"), "trace": cand}])
+                        if not e2 and dd:
+                            cur = cand
+                    idx -= 1
+                dd, e2 = xinterp_diff([{"seed": cur.get("seed"), "trace": cur}])
+                if e2 or not dd:
+                    harness_errors.append({"seed": cur.get("seed"), "harness_error": f"interpreter_identity difference did not reproduce: {e2}"})
+                    continue
+                v = dict(v, step=dd[0]["step"], detail=dd[0]["detail"])
+                path = os.path.join(VERIF_ROOT, "replays", _safe(f"{pid}-{cur.get('seed')}-interpreter_identity-{tgt}") + ".json")
+                os.makedirs(os.path.dirname(path), exist_ok=True)
+                with open(path, "w") as f:
+                    json.dump({"trace": cur, "violation": v, "xinterp": {"hashseeds": list(XINTERP_SEEDS)}, "repo": REPO_ROOT},
+                              f, indent=1, sort_keys=True)
+                code, rr, txt = engine.replay_fresh(path)
+                if code != 1:
+                    harness_errors.append({"seed": cur.get("seed"), "harness_error": f"replay of {path} did not reproduce (exit {code}): {txt[-300:]}"})
+                    continue
+                reported.append({"cls": cls, "seed": cur.get("seed"), "replay": path, "detail": v["detail"],
+                                 "count": sum(1 for x in diffs if True), "steps": len(cur["steps"])})
     finally:
         pools.close()
     wall = time.time() - t0
     # ---- evidence
     ev = build_evidence(pid, tier, seed, pm, jobs, results, worlds, wall, known_hits, reported,
                         harness_errors, det_mismatch, len(sample), skipped, shrink_log)
+    if hasattr(pm, "interpreter_sample"):
+        ev["coverage"]["interpreter_identity"] = dict(xi, hashseeds=list(XINTERP_SEEDS),
+                                                      rule="the sample is executed in two fresh interpreters differing "
+                                                           "only in PYTHONHASHSEED; per-step outcome and value digests must agree")
     if write_evidence:
         # runs against a scratch copy (QSIM_REPO=<worktree>, used for the seeded changes) must not
         # overwrite the evidence of /repo itself: theirs goes next to the replays (git-ignored)
@@ -316,7 +399,7 @@ def build_evidence(pid, tier, seed, pm, jobs, results, worlds, wall, known_hits,
             f = (s.get("fault") or {}) if s["k"] != "sweep" else {}
             for fk in f:
                 faults_cfg[fk] = faults_cfg.get(fk, 0) + 1
-                fired = r.get("fault_fired") if fk == "line" else True
+                fired = r.get("fault_fired") if fk in ("line", "linalg_fail") else True
                 if fired:
                     faults_fired[fk] = faults_fired.get(fk, 0) + 1
             if s["k"] != "sweep" and (s.get("clock") or f.get("clock")):
